@@ -101,6 +101,15 @@ func boundedInt(v ssa.Value, depth int) bool {
 	if _, ok := constInt(v); ok {
 		return true
 	}
+	// the fields behind those accessors, read directly inside the value's own package
+	if u, isU := v.(*ssa.UnOp); isU && u.Op == token.MUL {
+		if fa, isFA := u.X.(*ssa.FieldAddr); isFA {
+			switch typeNameOf(fa.X.Type()) + "." + fieldName(fa) {
+			case "time.hour", "time.minute", "time.dayShift", "date.year", "date.month", "date.day":
+				return true
+			}
+		}
+	}
 	switch x := v.(type) {
 	case *ssa.Convert:
 		return boundedInt(x.X, depth+1)
